@@ -24,6 +24,7 @@ func c10(c *Ctx) {
 	R.Trust("go/types + go/ssa", "go-ethereum ethclient.TransactionReceipt returns (nil, ethereum.NotFound=\"not found\") for an unknown transaction and (nil, err) for transport errors", "the RPC node's head/receipt atomicity assumptions written in the code comments")
 	loopVarRule(c, p, "C10.loopvar", pkgEth)
 	c10headSource(c, p)
+	c10pollerLock(c, p)
 	R.Assumption("simulated chain histories are not explored; the rules are path-universal facts at the sinks")
 	run := must(p.Method(pkgEth, "Watcher", "Run"), "ethereum.(*Watcher).Run")
 	msgChan := must(p.FieldOf(pkgEth, "Watcher", "msgChan"), "ethereum.Watcher.msgChan")
@@ -554,4 +555,39 @@ func c10headSource(c *Ctx, p *load.Program) {
 		}
 	})
 	R.Floor("C10.head-source", n, 4)
+}
+
+// c10pollerLock: the head poller is switched on when a message becomes pending and off when the
+// pending set is found empty; both happen while Watcher.pendingMu is held, so that "add a pending
+// message and switch on" cannot interleave with "see the set empty and switch off" (the message
+// would then wait for heads that are no longer polled).
+func c10pollerLock(c *Ctx, p *load.Program) {
+	R := c.R
+	mu := must(p.FieldOf(pkgEth, "Watcher", "pendingMu"), "Watcher.pendingMu")
+	n := 0
+	for _, f := range p.SrcFuncs(pkgEth) {
+		eachInstr(f, func(i ssa.Instruction) {
+			cl, ok := i.(*ssa.Call)
+			if !ok || !cl.Call.IsInvoke() && cl.Call.StaticCallee() == nil {
+				return
+			}
+			name := ""
+			if cl.Call.IsInvoke() {
+				name = cl.Call.Method.Name()
+			} else {
+				name = cl.Call.StaticCallee().Name()
+			}
+			if name != "EnablePoller" && name != "DisablePoller" {
+				return
+			}
+			// only the watcher's uses (the connector implementations define these methods)
+			if !strings.Contains(facts.Term(cl), "w.ethConn") {
+				return
+			}
+			n++
+			held := heldAt(p, f, cl, mu, false, 0)
+			R.Check("C10.head-scan", R.Key("C10.head-scan", shortFn(f), "poller-switch:"+name), c.rel(p.Pos(cl.Pos())), name+" is called while Watcher.pendingMu is held", held, "the poller is switched without the lock that guards the pending set")
+		})
+	}
+	R.Floor("C10.head-scan.poller-switches", n, 2)
 }
